@@ -102,9 +102,16 @@ static std::string validText(const std::string& name, int ver, const std::string
   return "{\"rulesets\":[{\"name\":\"" + rs + "\",\"detectors\":[[\"dg\",{\"name\":\"verif_det\",\"args\":{\"id\":\"" + id +
       "\"}}]],\"actions\":[{\"name\":\"verif_act\",\"args\":{\"id\":\"" + id + "\"}}]}]}";
 }
+// one file, two entries for the SAME base ruleset: one overrides the detectors, the other the actions
+static std::string twinText(const std::string& name, int ver, const std::string& rs) {
+  std::string id = name + ":" + std::to_string(ver);
+  return "{\"rulesets\":[{\"name\":\"" + rs + "\",\"detectors\":[[\"dg\",{\"name\":\"verif_det\",\"args\":{\"id\":\"" + id + "\"}}]]},"
+         "{\"name\":\"" + rs + "\",\"actions\":[{\"name\":\"verif_act\",\"args\":{\"id\":\"" + id + "\"}}]}]}";
+}
 static Content makeContent(Rng& r, const std::string& name, int ver) {
   int x = r.upto(100);
   std::string v = validText(name, ver, r.chance(50) ? "base0" : "base1");
+  if (x < 10) return {"valid", ver, twinText(name, ver, r.chance(50) ? "base0" : "base1")};
   if (x < 50) return {"valid", ver, v};
   std::string id = name + ":" + std::to_string(ver);
   switch (r.upto(10)) {
@@ -115,7 +122,11 @@ static Content makeContent(Rng& r, const std::string& name, int ver) {
     case 4: return {"unknownplugin", ver, "{\"rulesets\":[{\"name\":\"base0\",\"detectors\":[[\"dg\",{\"name\":\"no_such_plugin\",\"args\":{}}]]}]}"};
     case 5: return {"initfail", ver, "{\"rulesets\":[{\"name\":\"base0\",\"detectors\":[[\"dg\",{\"name\":\"verif_det\",\"args\":{\"bogus\":\"1\"}}]]}]}"};
     case 6: return {"locked", ver, validText(name, ver, "locked")};
-    case 7: return {"truncjson", ver, v.substr(0, v.size() - 1)};
+    case 7: return r.chance(40) ? Content{"truncjson", ver, v.substr(0, v.size() - 1)}
+                   // well-formed JSON of the wrong shape: jsoncpp reports these with Json::LogicError (a std::exception
+                   // that is no std::runtime_error), the parser itself with std::runtime_error
+                   : Content{"shape", ver, r.pick(std::vector<std::string>{"[1,2,3]", "\"str\"", "17", "{\"rulesets\":5}", "{\"rulesets\":[5]}",
+                                                                          "{\"rulesets\":[{\"name\":{\"a\":1}}]}", "{\"rulesets\":\"base0\"}"})};
     case 8: return {"baddelay", ver, "{\"rulesets\":[{\"name\":\"base0\",\"post_action_delay\":\"abc\",\"detectors\":[[\"dg\",{\"name\":\"verif_det\",\"args\":{\"id\":\"" + id + "\"}}]]}]}"};
     default: return {"binary", ver, std::string("\x00\xff\xfe{\"", 5)};
   }
